@@ -875,6 +875,17 @@ func (c *CEnv) call(x *ast.CallExpr) CVal {
 		md, _ := e.mapComps(mt)
 		hd := e.comp(c.st, md, e.comps[md])
 		return CVal{S: fmt.Sprintf("(and (not (= %s 0)) (select (select %s %s) %s))", m.S, hd, m.S, k.S), T: boolT}
+	case "seen":
+		// seen(k): key k was already yielded by the map range loop the invariant belongs to
+		sv, ok := c.phis["$seen"]
+		if !ok {
+			return c.fail("seen() outside a map range loop invariant")
+		}
+		k := c.ev(arg(0))
+		if k.T == nil {
+			k = c.lit(k, sv.T)
+		}
+		return CVal{S: fmt.Sprintf("(select %s %s)", sv.S, k.S), T: boolT}
 	case "isnan":
 		v := c.ev(arg(0))
 		return CVal{S: "(fp.isNaN " + v.S + ")", T: boolT}
